@@ -41,6 +41,13 @@ FAULTS = [
     ("missing-like-impl-range", ("int", "i32"), ("int", 3), "=~ 1..5", "1..5"),
     ("missing-like-impl-paren", ("int", "i32"), ("int", 3), "=~ (5)", "(5)"),
     ("missing-like-impl-ref", ("int", "i32"), ("int", 3), "=~ &5", "&5"),
+    # SHAPE faults: a composite pattern against a value of another shape. The slice, tuple and set templates are stamped with the call
+    # site as a whole (they have no path or operand token to take a span from): recorded finding `shape-*`. The map template is stamped
+    # with its first key's span and is located.
+    ("shape-slice-on-scalar", ("int", "i32"), ("int", 3), "[1, 2]", "[1, 2]"),
+    ("shape-tuple-on-scalar", ("int", "i32"), ("int", 3), "(1, 2)", "(1, 2)"),
+    ("shape-set-on-scalar", ("int", "i32"), ("int", 3), "#(1, 2)", "#(1, 2)"),
+    ("map-on-scalar", ("int", "i32"), ("int", 3), '#{ "a": 1 }', '#{ "a": 1 }'),
     ("wrong-map-key-type-negative", ("map", ("string",), ("int", "i32")), ("map", [("str", "k")], [("int", 1)]), '#{ -5: 1 }', "-5"),
 ]
 STRUCT_FAULTS = [
